@@ -56,3 +56,4 @@ let run_typing = run_with EvalIO.run_typing
 let run_strat = run_with EvalIO.run_strat
 let run_doc = run_with EvalIO.run_doc
 let run_doc_base = run_with EvalIO.run_doc_base
+let run_edges = run_with EvalIO.run_edges
